@@ -253,32 +253,58 @@ def copy_provenance(facts, res):
                     idx_store.append((x, l, kids(x)[1]))
                 elif vb == kdata:
                     data_store.append((x, l, kids(x)[1]))
-    if len(idx_store) != 1 or len(data_store) != 1:
+    if not idx_store or not data_store:
         raise AnalysisBroken("particle group constructor: %d index stores / %d data stores recognised (1/1 confirmed by reading)" % (len(idx_store), len(data_store)))
-    xi, li, ri = idx_store[0]
-    xd, ld, rd = data_store[0]
-    slot_i = facts.ntext(tbf.call_args(li)[0])
-    slot_d, val_d = [facts.ntext(a) for a in tbf.call_args(ld)]
-    # stored index = groupInfo.getParticleIndex(slot)
-    src_i = deref(ri)
-    ok_i = src_i.get("k") in ("CallExpr", "CXXMemberCallExpr") and tbf.callee_name(src_i) == "getParticleIndex" \
-        and strip(tbf.call_base(src_i)).get("did") == ginfo and facts.ntext(tbf.call_args(src_i)[0]) == slot_i
-    res.instance(R, "index store", facts.loc(xi), "slot %s <- %s" % (slot_i, facts.ntext(src_i)[:80]))
-    if not ok_i:
-        res.violation(R, f, fn["qname"], "index-store", xi["l"][1], "sorted slot %s stores `%s`, not the group property's getParticleIndex(%s): particles lose their original index" % (slot_i, facts.ntext(src_i)[:60], slot_i))
-    # data: positions[orig(slot)][value]
-    src_d = deref(rd)
-    ok_shape = src_d.get("k") in ("ArraySubscriptExpr", "CXXOperatorCallExpr")
-    inner = strip(kids(src_d)[-2]) if ok_shape else None
-    ok_shape = ok_shape and inner is not None and inner.get("k") in ("ArraySubscriptExpr", "CXXOperatorCallExpr") and strip(kids(inner)[-2]).get("did") == positions
-    row = deref(kids(inner)[-1]) if ok_shape else None
-    col = facts.ntext(kids(src_d)[-1]) if ok_shape else None
-    res.instance(R, "data store", facts.loc(xd), "slot (%s,%s) <- %s" % (slot_d, val_d, facts.ntext(src_d)[:80]))
-    ok_row = ok_shape and row.get("k") in ("CallExpr", "CXXMemberCallExpr") and tbf.callee_name(row) == "getParticleIndex" and facts.ntext(tbf.call_args(row)[0]) == slot_d
-    if not ok_shape or not ok_row or slot_d != slot_i:
-        res.violation(R, f, fn["qname"], "data-row", xd["l"][1], "sorted slot %s does not receive the data row of input particle getParticleIndex(%s) (got `%s`): data and index of a particle no longer belong together" % (slot_d, slot_d, facts.ntext(src_d)[:60]))
-    elif col != val_d:
-        res.violation(R, f, fn["qname"], "data-column", xd["l"][1], "value %s of the slot is read from value %s of the input" % (val_d, col))
+    # several stores (a fast path next to the general one, under a run-time test): either may execute, so each must be right on its own
+    tbf.link_parents(fm.body)
+
+    def under(x):
+        c = [a for a in tbf.ancestors(x) if a.get("k") == "IfStmt" and not a.get("constexpr")]
+        if not c:
+            return ""
+        c0 = [y for y in kids(c[0]) if y.get("k") != "DeclStmt"]
+        side = "holds" if len(c0) > 1 and any(z is x for z in walk(c0[1])) else "does not hold"
+        return " (on the path taken when `%s` %s)" % (facts.ntext(c0[0])[:70], side)
+    slots_i = set()
+    for xi, li, ri in idx_store:
+        slot_i = facts.ntext(tbf.call_args(li)[0])
+        slots_i.add(slot_i)
+        # stored index = groupInfo.getParticleIndex(slot)
+        src_i = deref(ri)
+        ok_i = src_i.get("k") in ("CallExpr", "CXXMemberCallExpr") and tbf.callee_name(src_i) == "getParticleIndex" \
+            and strip(tbf.call_base(src_i)).get("did") == ginfo and facts.ntext(tbf.call_args(src_i)[0]) == slot_i
+        res.instance(R, "index store@%d" % xi["l"][1] if len(idx_store) > 1 else "index store", facts.loc(xi), "slot %s <- %s%s" % (slot_i, facts.ntext(src_i)[:80], under(xi)))
+        if not ok_i:
+            res.violation(R, f, fn["qname"], "index-store" if len(idx_store) == 1 else "index-store@%d" % xi["l"][1], xi["l"][1], "sorted slot %s stores `%s`%s, not the group property's getParticleIndex(%s): the particle stored there is not the one the sorter put there - it sits in a leaf whose box does not contain it / loses its original index" % (slot_i, facts.ntext(src_i)[:60], under(xi), slot_i))
+    for xd, ld, rd in data_store:
+        slot_d, val_d = [facts.ntext(a) for a in tbf.call_args(ld)]
+        # data: positions[orig(slot)][value]
+        src_d = deref(rd)
+        ok_shape = src_d.get("k") in ("ArraySubscriptExpr", "CXXOperatorCallExpr")
+        inner = strip(kids(src_d)[-2]) if ok_shape else None
+        ok_shape = ok_shape and inner is not None and inner.get("k") in ("ArraySubscriptExpr", "CXXOperatorCallExpr") and strip(kids(inner)[-2]).get("did") == positions
+        row = deref(kids(inner)[-1]) if ok_shape else None
+        col = facts.ntext(kids(src_d)[-1]) if ok_shape else None
+        res.instance(R, "data store@%d" % xd["l"][1] if len(data_store) > 1 else "data store", facts.loc(xd), "slot (%s,%s) <- %s%s" % (slot_d, val_d, facts.ntext(src_d)[:80], under(xd)))
+        ok_row = ok_shape and row.get("k") in ("CallExpr", "CXXMemberCallExpr") and tbf.callee_name(row) == "getParticleIndex" and facts.ntext(tbf.call_args(row)[0]) == slot_d
+        if not ok_shape or not ok_row or (len(idx_store) == 1 and slot_d not in slots_i):
+            res.violation(R, f, fn["qname"], "data-row" if len(data_store) == 1 else "data-row@%d" % xd["l"][1], xd["l"][1], "sorted slot %s does not receive the data row of input particle getParticleIndex(%s) (got `%s`)%s: data and index of a particle no longer belong together" % (slot_d, slot_d, facts.ntext(src_d)[:60], under(xd)))
+        elif col != val_d:
+            res.violation(R, f, fn["qname"], "data-column", xd["l"][1], "value %s of the slot is read from value %s of the input" % (val_d, col))
+
+
+def _inside_tree_coordinate(f, line):
+    """is (file, line) inside the body of an ordering class's getTreeCoordinate?  The argument of getTreeCoordinate is where a relative position
+    is meant to be converted to the tree's coordinate type; a narrowing INSIDE the function happens after its face test"""
+    facts = tbf.scan("core")
+    for cls in ("TbfMortonSpaceIndex", "TbfHilbertSpaceIndex"):
+        for m in facts.methods_of(cls):
+            if m["name"] == "getTreeCoordinate" and tbf.body(m) is not None and tbf.rel(facts.path_of(m)) == f:
+                b = tbf.body(m)
+                last = max([y["l"][1] for y in walk(b) if y.get("l")] + [b["l"][1]])
+                if b["l"][1] <= line <= last:
+                    return True
+    return False
 
 
 def narrowing(res, tier):
@@ -308,7 +334,7 @@ def narrowing(res, tier):
             if f.startswith("src/core/") or f.startswith("src/containers/"):
                 if re.search(r"float|double|precision|may change value", msg):
                     res.violation(R, f, "<copy path>", "%s:%d" % (f, line), line, "implicit narrowing conversion on the particle data copy path: " + msg[:200])
-            elif f.startswith("src/spacial/") and re.search(r"conversion from .(long )?double. to ", msg) and "may change value" in msg:
+            elif f.startswith("src/spacial/") and re.search(r"conversion from .(long )?double. to ", msg) and "may change value" in msg and _inside_tree_coordinate(f, line):
                 # position -> leaf: a value of the particle's (wider) type narrowed to the tree's coordinate type inside the ordering class: tests made
                 # on the wide value (the upper-face clamp) and arithmetic made on the narrowed one disagree near a face
                 res.violation(R, f, "<position to leaf>", "%s:%d" % (f, line), line, "a floating value is implicitly narrowed inside the ordering class (%s): with float coordinates and double particle data a position within rounding of the upper face passes the face test in double and is floored after rounding up in float - the coordinate is one past the grid" % msg[:160])
